@@ -61,7 +61,7 @@ def encode(v):
         lb = enc_labels(v['labels'])
         body = bytes([8 * (len(lb) + 8) + v['plen']]) + lb + v['rd'] + prefix_bytes(v['addr'], v['plen'], v6)
     elif k == 'R':
-        body = bytes([8 * len(v['raw'])]) + v['raw']
+        body = bytes([min(255, 8 * len(v['raw']))]) + v['raw']      # 32 octets: the saturated length octet 255 reads back as 32
     elif k == 'F':
         n = len(v['raw'])
         body = (bytes([n]) if n < 240 else struct.pack('>H', 0xf000 | n)) + v['raw']
@@ -137,7 +137,7 @@ def gen_value(fam, rng, pid=None, boundary=None):
         if k == 'V':
             v['rd'] = bytes(rng.below(256) for _ in range(8))
     elif k == 'R':
-        n = rng.choice([0, 4, 12, 12, 12, 1 + rng.below(31)])
+        n = rng.choice([0, 4, 12, 12, 12, 31, 32, 1 + rng.below(32)])
         v['raw'] = bytes(rng.below(256) for _ in range(n))
     elif k == 'F':
         n = rng.choice([0, 3, 4, 6, 7, 8, 12, 30, 100, 238, 239, 240, 241, 300, 4094, 4095]) if boundary is None else boundary
